@@ -5,6 +5,7 @@
 package ucops
 
 import (
+	"sync/atomic"
 	"bytes"
 	"context"
 	"encoding/hex"
@@ -224,6 +225,8 @@ func (s scripted) Probe(context.Context, addr.Addr, int, time.Duration) (any, er
 }
 
 // Outcome spec: "fail" | "ok:<queryport>:<hostnamehex>:<numplayers>"
+var failKind atomic.Int64
+
 func proberFor(p *world.Proc, goal probe.Goal, outcome string) (probers.Prober, error) {
 	var real probers.Prober
 	if goal == probe.GoalPort {
@@ -232,7 +235,18 @@ func proberFor(p *world.Proc, goal probe.Goal, outcome string) (probers.Prober, 
 		real = detailsprober.New(p.Validate, p.W.Clock, p.Metrics, p.Logger)
 	}
 	if outcome == "fail" {
-		return scripted{Prober: real, err: errors.New("scripted probe failure")}, nil
+		// a failed probe is a failed probe, whatever went wrong: an unusable answer (validation, parsing), a timeout, a
+		// refused connection — the kinds take turns; with retries left each of them is retried
+		var errs []error
+		if goal == probe.GoalPort {
+			errs = []error{errors.New("scripted probe failure"), fmt.Errorf("%w: scripted", portprober.ErrValidationFailed),
+				fmt.Errorf("%w: scripted", portprober.ErrParseFailed), portprober.ErrPortDiscoveryFailed, context.DeadlineExceeded}
+		} else {
+			errs = []error{errors.New("scripted probe failure"), fmt.Errorf("%w: scripted", detailsprober.ErrValidationFailed),
+				fmt.Errorf("%w: scripted", detailsprober.ErrParseFailed), fmt.Errorf("query: %w", context.DeadlineExceeded),
+				&net.OpError{Op: "read", Net: "udp", Err: errors.New("connection refused")}}
+		}
+		return scripted{Prober: real, err: errs[int(failKind.Add(1))%len(errs)]}, nil
 	}
 	parts := strings.Split(outcome, ":")
 	if len(parts) != 4 || parts[0] != "ok" {
